@@ -61,6 +61,8 @@ def _minmax():
         out.append({"program": base + f"res(P,M) :- person(P), M = #min {{ V : sel(P,V) }}, 1 <= #count {{ {name} : ok(P,{name}) }}.", "tag": f"x-minmax-localname-agg:{name}", "trait": "minmax_chains"})
         out.append({"program": base + f"res(G0,M) :- person(G0), good(G0,{name}), M = #max {{ V : sel(G0,V) }}.", "tag": f"x-minmax-globalname:{name}", "trait": "minmax_chains"})
     # two objectives / sums with the identical tuple, one over a stored result
+    # (every group has the value 0, so that no #inf/#sup reaches the objective: clingo would ignore that tuple)
+    base = "{ sel(P,V) } :- skill(P,V).\nsel(P,0) :- person(P).\nperson(2).\nperson(3).\nskill(2,5).\nskill(3,3).\n"
     for obj in ("#minimize", "#maximize"):
         out.append({"program": base + f"best(P,X) :- person(P), X = #max {{ V : sel(P,V) }}.\n{obj} {{ X,P : best(P,X) }}.\n{obj} {{ X,P : bonus(P,X) }}.", "tag": "x-minmax-same-tuple", "trait": "minmax_chains", "out": [["sel", 2]]})
         out.append({"program": base + f"best(P,X) :- person(P), X = #max {{ V : sel(P,V) }}.\n{obj} {{ X,slot(P/2) : best(P,X) }}.", "tag": "x-minmax-noninjective-tuple", "trait": "minmax_chains", "out": [["sel", 2]]})
@@ -202,5 +204,61 @@ def _robust():
     return out
 
 
+def _domains():
+    out = []
+    # the approximated predicate is declared as input AND defined in the encoding, at different distances from a choice
+    defs = [
+        ("choice", "{ p(X) } :- b(X)."),
+        ("derived", "{ c(X) } :- b(X).\np(X) :- c(X)."),
+        ("two-levels", "{ c(X) } :- b(X).\nm(X) :- c(X).\np(X) :- m(X)."),
+        ("static-rule", "p(X) :- b(X), X > 1."),
+        ("fact", "p(1).\np(X) :- b(X)."),
+        ("derived-neg", "{ c(X) } :- b(X).\np(X) :- b(X), not c(X)."),
+    ]
+    uses = [
+        ("max", "mx(M) :- M = #max { V : p(V) }.", "minmax_chains"),
+        ("min-bound", "low :- #min { V : p(V) } < 2.", "minmax_chains"),
+        ("join", ":- p(X), p(Y), X != Y.", "symmetry"),
+        ("join-lt", "two :- p(X), p(Y), X < Y.", "symmetry"),
+    ]
+    for (dl, d), (ul, u, t) in itertools.product(defs, uses):
+        for declared in (True, False):
+            out.append({"program": d + "\n" + u, "tag": f"x-domains-input-derived:{dl}:{ul}:{'in' if declared else 'closed'}", "trait": t, "in": [["b", 1]] + ([["p", 1]] if declared else [])})
+    for declared in (True, False):
+        out.append({"program": "{ c(G,V) } :- b(G,V).\np(G,V) :- c(G,V).\n{ q(G,V) : p(G,V) } 1 :- g(G).\ntotal(S) :- S = #sum { V,G : q(G,V) }.", "tag": f"x-domains-input-derived:sum:{'in' if declared else 'closed'}", "trait": "sum_chains", "in": [["b", 2], ["g", 1]] + ([["p", 2]] if declared else [])})
+    # a second body aggregate over a choice-defined predicate next to the #min/#max aggregate
+    for fn, guard in itertools.product(("#count", "#sum"), ("L = {A}", "L <= {A}", "{A} >= L", "L != {A}")):
+        tup = "T" if fn == "#count" else "T,T"
+        agg = fn + " { " + tup + " : task(T) }"
+        for owner in ("{ task(T) } :- t(T).", "task(T) :- t(T)."):
+            out.append({"program": owner + "\nlvl(0..3).\nbest(L,X) :- lvl(L), X = #max { V : skill(L,V) }, " + guard.format(A=agg) + ".", "tag": f"x-domains-dynamic-agg:{fn}:{'choice' if owner.startswith('{') else 'static'}", "trait": "minmax_chains", "in": [["t", 1], ["skill", 2]]})
+            out.append({"program": owner + "\n{ sel(L,V) } :- skill(L,V).\nlvl(0..3).\nbest(L,X) :- lvl(L), X = #max { V : sel(L,V) }, " + guard.format(A=agg) + ".", "tag": f"x-domains-dynamic-agg-sel:{fn}:{'choice' if owner.startswith('{') else 'static'}", "trait": "minmax_chains", "in": [["t", 1], ["skill", 2]]})
+    return out
+
+
+def _projection():
+    out = []
+    # literals that look like binders to a too liberal analysis: not not p(..), negated comparisons
+    fakes = ["not not r(X,B)", "not r(X,B)", "not not X = B", "not X != B", "not not r(X,_)", "r(X,B)"]
+    shapes = [
+        "h(A,X) :- t(A,X), s(B), {F}.",
+        "h(A,D) :- q(A,B,C), r2(A,D,X,F), {F}, u(C).",
+        "h(A,X) :- t(A,X), s(B), w(B,C), {F}, v(C).",
+        "{{ h(A,X) }} :- t(A,X), s(B), {F}.",
+        ":- t(A,X), s(B), {F}, not ok(A).",
+    ]
+    for sh, f in itertools.product(shapes, fakes):
+        out.append({"program": sh.format(F=f), "tag": "x-projection-fake-binder", "trait": "projection"})
+        out.append({"program": sh.format(F=f) + "\ng(A,X) :- t(A,X), s(B), " + f + ", z(A).", "tag": "x-duplication-fake-binder", "trait": "duplication"})
+    return out
+
+
 def programs():
-    return _cleanup() + _minmax() + _sumchains() + _normalize() + _unused() + _duplication() + _robust()
+    out = _cleanup() + _minmax() + _sumchains() + _normalize() + _unused() + _duplication() + _robust() + _domains() + _projection()
+    # the harness samples stratified by tag: give every variant of a class its own tag (class#variant)
+    seen: dict = {}
+    for prog in out:
+        n = seen.get(prog["tag"], 0)
+        seen[prog["tag"]] = n + 1
+        prog["tag"] = f"{prog['tag']}#{n}"
+    return out
